@@ -74,6 +74,7 @@ theorem addContent_typed_gen (T : Tables) (C : Cert) (TT : TyTables) (hC : C.ok 
   have h2 := parse_end_ok T C TT env F G text.toList (parseFuel text)
   have h3 := finishE_typed env id _ _ h2
   have h4 := finishE_allowed hE id (parseLoop T env { input := text.toList } (parseFuel text)).1 _ h1
+    (parse_diags_good T C env F text.toList (ActionsSafe.actionsSafe T env text.toList hE) (parseFuel text))
   revert h3 h4
   cases finishE env id (parseLoop T env { input := text.toList } (parseFuel text)).1
       (parseLoop T env { input := text.toList } (parseFuel text)).2 with
